@@ -537,6 +537,10 @@ class Rmcp(object):
         # 2 - Get Session Challenge
         log().debug('Get Session Challenge')
         session.auth_type = caps.get_max_auth_type()
+        if session.auth_type is None:
+            raise NotSupportedError('the BMC offers no authentication type '
+                                    'for privilege level %s'
+                                    % session.priv_level)
         rsp = self._get_session_challenge(session)
         session_challenge = rsp.challenge_string
         session.sid = rsp.temporary_session_id
